@@ -205,8 +205,14 @@ class HComp(fm.TimeComponent):
     def step_at(self, k):
         return self.steps[k % len(self.steps)]
 
+    def cur_step(self):
+        """the step the component will take next: cycles with its own update count, or -- adaptive stepping --
+        follows the update count of a controlling component (it can change while this component's time does not)"""
+        ctrl = getattr(self, "ctrl", None)
+        return self.step_at(self.k if ctrl is None else ctrl.k)
+
     def _next_time(self):
-        return self.time + self.step_at(self.k)
+        return self.time + self.cur_step()
 
     def tag(self, k):
         if self.value is not None:
@@ -259,7 +265,7 @@ class HComp(fm.TimeComponent):
 
     def _update(self):
         self.calls.append("update")
-        self._time = self._time + self.step_at(self.k)
+        self._time = self._time + self.cur_step()
         self.k += 1
         self.update_times.append(self._time)
         if self.on_update:
